@@ -393,7 +393,60 @@ Section Commit.
         if overlap D U' then None       (* process_nglob_changes: ConsistencyError *)
         else Some (apply_nglobs (fun r => evolved r U' D) g1)
     end.
-  Definition watch_commit := watch_commit_gen commit_attached_only.
+
+  (* The same part of run_once as the translator reads it, statement by statement (gen.GenWatch
+     commit_program).  The state: the graph, self.updated, self.deleted, and what `old_hashes` was read
+     from (the file table at that moment, the attached-only filter, the (path, old hash, EXTERNAL) jobs
+     for its items) plus whether `new_hashes` exists.  new_hashes[p] = hash_fs p (C13); the keys of both
+     dictionaries are the nodes at a path of updated|deleted at the time of the read, and the two sets
+     only shrink afterwards, so `pruned files0 ao p` is `new_hashes[p] == old_hashes[p]` for every p
+     that is still in one of the sets.  None = the coroutine raised. *)
+  Record cstate : Type := mk_cs {
+    cs_g : gstate; cs_U : list path; cs_D : list path;
+    cs_old : option (list fnode * bool * list job); cs_new : bool }.
+  Definition cs_set (s : cstate) (x : wset) : list path := match x with SetU => cs_U s | SetD => cs_D s end.
+  Definition exec_stmt (st : cstmt) (s : cstate) : option cstate :=
+    match st with
+    | CReadOld ao =>
+        Some (mk_cs (cs_g s) (cs_U s) (cs_D s)
+                    (Some (g_files (cs_g s), ao, watch_jobs_gen ao (cs_g s) (cs_U s) (cs_D s))) false)
+    | CRehash =>
+        match cs_old s with
+        | None => None
+        | Some (_, _, jobs) =>
+            match run_jobs jobs (cs_g s) with
+            | None => None
+            | Some g1 => Some (mk_cs g1 (cs_U s) (cs_D s) (cs_old s) true)
+            end
+        end
+    | CPrune pu pd =>
+        match cs_old s with
+        | Some (files0, ao, _) =>
+            if cs_new s then
+              let keep := fun p => negb (pruned files0 ao p) in
+              Some (mk_cs (cs_g s) (if pu then filter keep (cs_U s) else cs_U s)
+                          (if pd then filter keep (cs_D s) else cs_D s) (cs_old s) true)
+            else None
+        | None => None
+        end
+    | CNglob d u =>
+        let Dv := cs_set s d in
+        let Uv := cs_set s u in
+        if overlap Dv Uv then None       (* process_nglob_changes: ConsistencyError *)
+        else Some (mk_cs (apply_nglobs (fun r => evolved r Uv Dv) (cs_g s)) (cs_U s) (cs_D s) (cs_old s) (cs_new s))
+    | CClear => Some (mk_cs (cs_g s) [] [] (cs_old s) (cs_new s))
+    end.
+  Fixpoint exec_prog (prog : list cstmt) (s : cstate) : option cstate :=
+    match prog with
+    | [] => Some s
+    | st :: more => match exec_stmt st s with None => None | Some s1 => exec_prog more s1 end
+    end.
+  Definition run_commit (prog : list cstmt) (g : gstate) (U D : list path) : option gstate :=
+    match exec_prog prog (mk_cs g U D None false) with None => None | Some s => Some (cs_g s) end.
+  (* the shape the hand-written watch_commit_gen describes *)
+  Definition base_program (ao : bool) : list cstmt :=
+    [CReadOld ao; CRehash; CPrune true false; CNglob SetD SetU; CClear].
+  Definition watch_commit := run_commit commit_program.
 
   (* startup.rescan_files; rescan_nglobs *)
   Definition startup_rescan (g : gstate) : option gstate :=
@@ -427,6 +480,31 @@ Section Commit.
     let globs := flat_map (fun r => if ng_attached r then filter (is_prefix pre) (ng_matches r) else [])
                           (g_nglobs g) in
     dedup (nodes ++ globs) [].
+
+  (* Decidable forms of the hypotheses of C14_watch_commit_equals_rescan (proofs/WatchProofs.v WellFormed,
+     Covers, detached_unmatched; soundness: wf_b_sound, covers_b_sound, du_b_sound): the search for a
+     counterexample of a translated commit_program evaluates them on generated instances. *)
+  Fixpoint nodup_b (l : list path) : bool :=
+    match l with [] => true | p :: r => negb (pmem p r) && nodup_b r end.
+  Definition wf_b (g : gstate) : bool :=
+    nodup_b (map f_path (g_files g))
+    && forallb (fun f => negb (f_attached f && fstate_eqb (f_state f) FS_UNCONFIRMED)) (g_files g)
+    && forallb (fun r => negb (ng_attached r) || forallb (fun p => matches (ng_pat r) p) (ng_matches r))
+               (g_nglobs g).
+  Definition du_b (g : gstate) : bool :=
+    forallb (fun f => f_attached f || negb (matches_any_glob g (f_path f))) (g_files g).
+  Definition covers_b (ao : bool) (g : gstate) (U D : list path) : bool :=
+    forallb (change_is_relevant g false) U
+    && forallb (change_is_relevant g false) D
+    && negb (overlap U D)
+    && forallb (fun f => negb (rescan_selected f) || pmem (f_path f) (U ++ D)
+                         || ofh_eqb (hash_fs (f_path f)) (f_hash f)) (g_files g)
+    && forallb (fun r => negb (ng_attached r)
+                 || forallb (fun p => negb (matches (ng_pat r) p)
+                               || Bool.eqb (exists_fs p)
+                                    (if pmem p D then false
+                                     else if pmem p U && negb (pruned (g_files g) ao p) then true
+                                     else pmem p (ng_matches r))) universe) (g_nglobs g).
 End Commit.
 Arguments g_files {rest} _.
 Arguments g_nglobs {rest} _.
